@@ -28,7 +28,9 @@ def runMonitor (pid : String) (c : MonCtx) (ls : List Label) : Option (Option Na
   | "C04" => some (match ff (monC04 c) ls with
       | some k => some k
       | none => ff (monC04q c) ls)
-  | "C05" => some (ff (monC05 c) ls)
+  | "C05" => some (match ff (monC05 c) ls with
+      | some k => some k
+      | none => ff (monC05q c) ls)
   | "C06" => some (ff (monC06 c) ls)
   | "C07" => some (match ff (monC07 c) ls with
       | some k => some k
